@@ -399,7 +399,7 @@ pub fn huge_history(kind: Kind, variant: usize, rng: &mut Rng) -> (Cfg, Vec<Op>,
         Kind::Slru => Cfg::slru(big / 2, big / 2 + 300),
         Kind::TwoQ => Cfg::twoq(big, 0.3, 1.0),
         Kind::Arc => Cfg::arc(big),
-        Kind::Wtlfu => Cfg::wtlfu(40, big / 2 + 200, big / 2, 20000, HKind::Ident),
+        Kind::Wtlfu => Cfg::wtlfu(if variant == 0 { 40 } else { 700 }, big / 2 + 200, big / 2, 20000, HKind::Ident),
     };
     let total = cfg.total();
     let n = (total + total / 3) as u32;
@@ -554,4 +554,52 @@ pub fn saturation_grid() -> Vec<(Cfg, Vec<Op>)> {
         }
     }
     v
+}
+
+/// ARC at sizes of a thousand and more, in the two corners random traffic does not reach:
+/// (a) a full cache whose recent list holds a single entry while p is still 0, then new keys
+/// (victim choice between a one-entry recent list and a long frequent list); (b) a recent-ghost
+/// hit while the frequent ghost list is hundreds of times longer than the recent ghost list
+/// (one adaptation step of several hundred). The keys are read off the reference model.
+pub fn arc_large_scripts(which: usize) -> (Cfg, Vec<Op>, Vec<u32>) {
+    use crate::model::{Model, NoEst};
+    let run = |cfg: &Cfg, ops: &[Op]| -> crate::model::MState {
+        let mut m = Model::new(cfg);
+        for (i, op) in ops.iter().enumerate() {
+            if let Some(o) = m.step(op, (i as u64 + 1) * 64, &NoEst).into_iter().next() {
+                m.st = o.st;
+            }
+        }
+        m.st
+    };
+    if which == 0 {
+        let size = 1024u32;
+        let cfg = Cfg::arc(size as usize);
+        let mut ops: Vec<Op> = (0..size).map(Op::Put).collect();
+        ops.extend((0..size - 1).map(|k| Op::Get(k, false)));
+        ops.extend([Op::Put(size), Op::Put(size + 1), Op::Len, Op::Put(size + 2), Op::Put(0), Op::Put(size - 1)]);
+        let uni = (0..size + 3).collect();
+        return (cfg, ops, uni);
+    }
+    let size = 1000u32;
+    let cfg = Cfg::arc(size as usize);
+    let mut ops: Vec<Op> = (0..2 * size).map(Op::Put).collect();
+    let st = run(&cfg, &ops);
+    let residents: Vec<u32> = st.lists[0].iter().chain(st.lists[1].iter()).map(|e| e.0).collect();
+    ops.extend(residents.iter().map(|k| Op::Get(*k, false)));
+    // 300 hits on the recent ghost list, most recently evicted first
+    let st = run(&cfg, &ops);
+    let ghosts: Vec<u32> = st.lists[2].iter().take(300).map(|e| e.0).collect();
+    ops.extend(ghosts.iter().map(|k| Op::Put(*k)));
+    // leave a single recent ghost, then hit it
+    let st = run(&cfg, &ops);
+    let rest: Vec<u32> = st.lists[2].iter().map(|e| e.0).collect();
+    if rest.len() >= 2 {
+        ops.extend(rest[1..].iter().map(|k| Op::Remove(*k, false)));
+        ops.push(Op::Len);
+        ops.push(Op::Put(rest[0]));
+    }
+    ops.extend([Op::Put(2 * size + 1), Op::Put(2 * size + 2), Op::Len]);
+    let uni = (0..2 * size + 3).collect();
+    (cfg, ops, uni)
 }
